@@ -578,6 +578,9 @@ class Model(Object):
 
             if not destructive:
                 for the_reaction in list(x._reaction):  # noqa W0212
+                    # the metabolite may also be used by reactions outside the model
+                    if the_reaction._model is not self:  # noqa W0212
+                        continue
                     the_coefficient = the_reaction._metabolites[x]  # noqa W0212
                     the_reaction.subtract_metabolites({x: the_coefficient})
 
